@@ -206,6 +206,7 @@ func (s *Sim) finish(before map[string]string) {
 		if s.hookStep != nil {
 			s.hookStep(s)
 		}
+		s.censusBeforeCancel(before)
 		for _, rs := range s.rpcs {
 			if rs.started && rs.ctx.Err() == nil {
 				s.endCtx(rs, "end")
@@ -410,4 +411,56 @@ func runMetered(t *testing.T, prog *Program, tape *Tape, keepTrace bool) *Result
 			Text: fmt.Sprintf("%s-side decoder, adversarial body (%s, %d bytes present, preface announces %d): decoding allocated %d bytes", side, note, len(body), announced, delta)})
 	}
 	return res
+}
+
+
+// censusBeforeCancel: when every call of the run has completed and been
+// consumed (its caller holds the final outcome, its handler has returned)
+// while no context has been cancelled yet, no goroutine of the library may be
+// left: a goroutine that only goes away when the caller's context is
+// eventually cancelled is a leak for a caller that never cancels.
+func (s *Sim) censusBeforeCancel(before map[string]string) {
+	if s.stats.HitCap || len(s.waiting) > 0 {
+		return
+	}
+	for _, v := range s.views() {
+		rs := v.rs
+		if !rs.started {
+			if rs.r.Nested {
+				continue
+			}
+			return
+		}
+		if rs.ctx.Err() != nil || !rs.clientEnded || rs.handlerDone < rs.handlerEntered || v.r.RawClient {
+			return // cancelled, cut short by the harness, or not a library client
+		}
+		if v.terminal == nil || v.terminal.RSeq == 0 {
+			return // the caller never asked for the final outcome: not consumed
+		}
+		if v.terminal.Flags["mismatch"] == "1" {
+			return // the caller could not decode a response; whether that ends the call is the caller's decision
+		}
+		if v.r.Kind != KUnary && !v.single && v.terminal.Err.IsNil() {
+			return
+		}
+	}
+	synctest.Wait()
+	after := libGoroutines()
+	var leaked []string
+	for id, g := range after {
+		if _, ok := before[id]; !ok {
+			leaked = append(leaked, g)
+		}
+	}
+	if len(leaked) == 0 {
+		s.stats.Probes["census-before-cancel-clean"]++
+		return
+	}
+	sort.Strings(leaked)
+	g := leaked[0]
+	if len(g) > 1500 {
+		g = g[:1500]
+	}
+	s.viols = append(s.viols, Violation{Prop: "C05", Sig: "C05|leak-while-context-alive|" + leakSite(g), RPC: -1,
+		Text: fmt.Sprintf("%d goroutine(s) with library frames remain although every call has completed and been consumed (no context has been cancelled yet); first:\n%s", len(leaked), g)})
 }
